@@ -367,10 +367,16 @@ pub fn try_acquire(addr: usize, m: Mode) -> Option<bool> {
     }
 }
 
-/// Called right before the real unlock.
+/// Called right before the real unlock.  Also a scheduling point: the thread may be
+/// preempted while it still holds the lock, so that other threads run *inside* its critical
+/// section (a blocking acquisition by them just blocks; a try-lock observes the lock held).
 pub fn release(addr: usize, m: Mode) {
     let Some(me) = TID.with(|t| t.get()) else { return };
-    let mut g = lock_state();
+    let g = if std::thread::panicking() { None } else { sched_point(me, m) };
+    let mut g = match g {
+        Some(g) => g,
+        None => lock_state(),
+    };
     let Some(s) = g.as_mut() else { return };
     if s.aborted {
         return;
